@@ -212,10 +212,11 @@ type climb struct {
 
 var linkDirs = []string{"", "opt", "opt/sub"}
 
-var beneathKinds = []string{"create", "remove", "mkdirall", "mkdir", "write", "link-new", "link-old", "chmod", "mknod", "symlink"}
+var beneathKinds = []string{"create", "remove", "mkdirall", "mkdir", "write", "link-new", "link-old", "chmod", "mknod", "symlink", "create-final", "write-final"}
 
 // tree-checked methods only: on the unchanged code these are refused whenever the link climbs
-var beneathTreeFirst = []string{"create", "remove"}
+// (create-final: the link is the LAST component and names a file: memFS.openFile's own join)
+var beneathTreeFirst = []string{"create", "remove", "create", "remove", "create-final"}
 
 func (s climb) ops() []dop {
 	var ops []dop
@@ -274,6 +275,15 @@ func (s climb) ops() []dop {
 			ops = append(ops, dop{Op: "OMknod", Name: access + "/node"})
 		case "symlink":
 			ops = append(ops, dop{Op: "OSymlink", Name: access + "/sl", Target: "existing.txt"})
+		case "create-final", "write-final":
+			// a second link next to the first, to the FILE keep.txt in the same place
+			flink := filepath.Join(ld, "datafile")
+			ops = append(ops, dop{Op: "OSymlink", Name: flink, Target: target + "/keep.txt"})
+			op := "OCreate"
+			if b == "write-final" {
+				op = "OWriteFile"
+			}
+			ops = append(ops, dop{Op: op, Name: filepath.Join(filepath.Dir(access), "datafile")})
 		}
 	}
 	return ops
@@ -287,6 +297,11 @@ func (s climb) entries() []entry {
 		case "OMkdirAll", "OMkdir":
 			es = append(es, entry{Type: tar.TypeDir, Name: o.Name})
 		case "OWriteFile", "OCreate":
+			if strings.HasSuffix(o.Name, "datafile") {
+				// a regular-file entry whose name already resolves is not opened at all by the
+				// installer (writeOneFile's Stat comes first): not this model's business
+				continue
+			}
 			es = append(es, entry{Type: tar.TypeReg, Name: o.Name, Data: "package content", Sum: true})
 		case "OSymlink":
 			es = append(es, entry{Type: tar.TypeSymlink, Name: o.Name, Link: o.Target})
@@ -354,6 +369,12 @@ func stageCanary3(w *gal.Writer, r *gal.Rand) {
 	for _, b := range beneathKinds {
 		runHostCase(w, "climb-link-beneath", climb{Depth: 1, K: 1, InRoot: true, Shape: "clean", Beneath: []string{b}}.ops())
 	}
+	// the link as the LAST component, naming a file (memFS.openFile follows it with its own join)
+	for k := 0; k < 3; k++ {
+		runHostCase(w, "climb-link-final", climb{Depth: 1, K: k, InRoot: true, Shape: "clean", Beneath: []string{"create-final"}}.ops())
+	}
+	runHostCase(w, "climb-link-final", climb{Depth: 1, K: 1, InRoot: true, Shape: "clean", Beneath: []string{"write-final"}}.ops())
+	runHostCase(w, "climb-link-final", climb{Depth: 0, K: 2, InRoot: true, Detour: true, Shape: "clean", Beneath: []string{"create-final"}}.ops())
 	// what the in-memory tree accepts although the kernel leaves the base (finding C18-F6):
 	// the detour makes the names traversed longer than the physical depth ...
 	runHostCase(w, "climb-link-detour", climb{Depth: 0, K: 3, InRoot: true, Detour: true, Shape: "clean", Beneath: []string{"create"}}.ops())
